@@ -87,6 +87,32 @@ pub fn gen_world(rng: &mut Rng, p: &Profile) -> (WorldCfg, u8) {
         rng.shuffle(&mut pool);
         denoms = pool[..nd].iter().map(|s| s.to_string()).collect();
     }
+    // look-alike denoms: a second denom that differs from an existing one only by letter case,
+    // or extends / truncates it (the bank treats them as unrelated coins)
+    if rng.chance(15, 100) {
+        let base = rng.pick(&denoms).clone();
+        let alike = match rng.weighted(&[50, 20, 15, 15]) {
+            0 => {
+                if base.chars().any(|c| c.is_ascii_lowercase()) {
+                    base.to_uppercase()
+                } else {
+                    base.to_lowercase()
+                }
+            }
+            1 => format!("{}x", base),
+            2 => format!("{} ", base),
+            _ => {
+                let mut c: Vec<char> = base.chars().collect();
+                if let Some(f) = c.first_mut() {
+                    *f = if f.is_ascii_lowercase() { f.to_ascii_uppercase() } else { f.to_ascii_lowercase() };
+                }
+                c.into_iter().collect()
+            }
+        };
+        if alike != base && !denoms.contains(&alike) {
+            denoms.push(alike);
+        }
+    }
     // now and then a native denom is spelled exactly like the address of one of the tokens
     // (token i is instantiated as "contract<i>"): textual asset ids then collide across kinds
     if nt > 0 && !denoms.is_empty() && rng.chance(12, 100) {
